@@ -1,5 +1,8 @@
 //! vh — verification harness for rustic_core (drivers emit ndjson for TLC, or replay TLC behaviours)
+mod abs;
 mod drivers;
+mod scn;
+mod store;
 mod util;
 
 fn main() {
@@ -11,6 +14,7 @@ fn main() {
     let a = util::Args::parse(&argv[2..]);
     match argv[1].as_str() {
         "forget" => drivers::forget::run(&a),
+        "probe" => drivers::probe::run(&a),
         d => {
             eprintln!("unknown driver {d}");
             std::process::exit(2);
